@@ -39,14 +39,16 @@ type connEnd struct {
 }
 
 type closeRT struct {
-	w      *World
-	cs     *spec.CloseSpec
-	mu     sync.Mutex
-	calls  []*callRec
-	ends   map[string]*connEnd // "c0s1/client"
-	ready  map[string]chan struct{}
-	kills  map[string][]killRec     // session key -> everything that ended or broke the session
-	dialAt map[string]time.Duration // session key -> when DialContext returned
+	w               *World
+	cs              *spec.CloseSpec
+	mu              sync.Mutex
+	calls           []*callRec
+	ends            map[string]*connEnd // "c0s1/client"
+	ready           map[string]chan struct{}
+	kills           map[string][]killRec     // session key -> everything that ended or broke the session
+	dialAt          map[string]time.Duration // session key -> when DialContext returned
+	silentFailureAt time.Duration            // when a TCP connection was black-holed (0: never)
+	firstWrite      map[string]time.Duration // judge: connection -> start of its first Write
 }
 
 // killRec is one event that ends or breaks a session.
@@ -226,6 +228,9 @@ func (c *closeRT) fire(ev spec.Event) {
 		if ev.Arg < len(conns) {
 			// a silent TCP failure is the kernel's to detect (keep-alive / retransmission
 			// time-out, which simnet does not model): no bound is derived from it
+			c.mu.Lock()
+			c.silentFailureAt = c.now()
+			c.mu.Unlock()
 			conns[ev.Arg].Blackhole()
 		}
 	case "udp-blackhole":
@@ -290,6 +295,7 @@ func (c *closeRT) runActor(idx int, a *spec.Actor) {
 	c.mu.Unlock()
 	prf := newPRF(w.Spec.Seed, idx, 9)
 	var off int64
+	timeouts := 0 // consecutive reads that ended in a time-out
 	for _, op := range a.Ops {
 		cnt := op.Count
 		if cnt <= 0 {
@@ -352,6 +358,15 @@ func (c *closeRT) runActor(idx int, a *spec.Actor) {
 				ce.mu.Unlock()
 				if err != nil && !isTimeout(err) {
 					return
+				}
+				if err != nil {
+					// a connection that has failed for good may keep answering "time-out" at
+					// once (a 0-RTT connection whose handshake timed out does): give up on it
+					if timeouts++; timeouts >= 50 {
+						return
+					}
+				} else {
+					timeouts = 0
 				}
 				time.Sleep(time.Microsecond)
 			case "close":
@@ -466,6 +481,11 @@ func (c *closeRT) judge(stopBound time.Duration) {
 			}
 			// ... and nothing but the user's deadline may time a call out
 			killedBefore := false
+			c.mu.Lock()
+			if c.silentFailureAt > 0 && c.silentFailureAt <= end {
+				killedBefore = true // a connection went silent: mieru's own time-outs are how a call ends
+			}
+			c.mu.Unlock()
 			for _, k := range kills {
 				if k.at <= end {
 					killedBefore = true // the call failed because the session was ended or broken: any error will do
@@ -502,12 +522,19 @@ func (c *closeRT) beforeFirstWrite(key string, r *callRec, end time.Duration, bl
 	}
 	c.mu.Lock()
 	defer c.mu.Unlock()
-	for _, o := range c.calls {
-		if o.conn == r.conn && o.op == "write" && (blocked || o.start <= end) {
-			return false
+	if c.firstWrite == nil {
+		// earliest Write per connection, computed once (a run may record 10^5 calls)
+		c.firstWrite = map[string]time.Duration{}
+		for _, o := range c.calls {
+			if o.op == "write" {
+				if t, ok := c.firstWrite[o.conn]; !ok || o.start < t {
+					c.firstWrite[o.conn] = o.start
+				}
+			}
 		}
 	}
-	return true
+	t, ok := c.firstWrite[r.conn]
+	return !ok || (!blocked && t > end)
 }
 
 func sideOf(conn string) string {
